@@ -449,14 +449,28 @@ func Eq(a, b *Term) *Term {
 		}
 		return Eq(x, BVConst(b.C, x.S.W))
 	}
-	if b.IsConst() && a.Op == OConcat {
-		// split
-		lo := a.Args[1]
-		hi := a.Args[0]
-		loC := BVConst(new(big.Int).And(b.C, mask(lo.S.W)), lo.S.W)
-		hiC := BVConst(new(big.Int).Rsh(b.C, uint(lo.S.W)), hi.S.W)
-		return And(Eq(hi, hiC), Eq(lo, loC))
+	if a.Op == OConcat || (b.Op == OConcat && !a.IsConst()) {
+		if a.Op != OConcat {
+			a, b = b, a
+		}
+		parts := mergeExtractRuns(flattenConcat(a))
+		if len(parts) > 1 {
+			cs := make([]*Term, 0, len(parts))
+			hi := a.S.W - 1
+			for _, p := range parts {
+				cs = append(cs, Eq(p, Extract(b, hi, hi-p.S.W+1)))
+				hi -= p.S.W
+			}
+			return And(cs...)
+		}
+		if len(parts) == 1 && parts[0] != a {
+			return Eq(parts[0], b)
+		}
 	}
+	if hashInjective && a.Op == OApp && (b.Op == OApp || b.IsConst()) {
+		return wholeEq(a, b)
+	}
+
 	if a.ID > b.ID && !b.IsConst() {
 		a, b = b, a
 	}
@@ -1431,4 +1445,32 @@ func expandLen(t *Term) *Term {
 		res = Ite(Not(Eq(IntBin(OIMod, ax, IntConst(pow2(k+1))), IntI(0))), BVu(uint64(k), 64), res)
 	}
 	return Ite(Eq(x, IntI(0)), BVu(0, 64), res)
+}
+
+// flattenConcat lists the operands of nested concatenations, most significant first.
+func flattenConcat(t *Term) []*Term {
+	if t.Op != OConcat {
+		return []*Term{t}
+	}
+	return append(flattenConcat(t.Args[0]), flattenConcat(t.Args[1])...)
+}
+
+// mergeExtractRuns joins adjacent extracts of the same term and adjacent constants.
+func mergeExtractRuns(ps []*Term) []*Term {
+	var out []*Term
+	for _, p := range ps {
+		if n := len(out); n > 0 {
+			q := out[n-1]
+			if q.Op == OExtract && p.Op == OExtract && q.Args[0] == p.Args[0] && q.B == p.A+1 {
+				out[n-1] = Extract(q.Args[0], q.A, p.B)
+				continue
+			}
+			if q.IsConst() && p.IsConst() {
+				out[n-1] = Concat(q, p)
+				continue
+			}
+		}
+		out = append(out, p)
+	}
+	return out
 }
